@@ -1066,31 +1066,72 @@ func ruleBufferBounded(p *Prog, r *Out) {
 		return true
 	})
 	r.check(adv, "recvBody counts every DATA byte", p.pos(fd.Pos()), "recvBody += len(data)", "Stream.recvBody is no longer advanced by the length of each DATA payload: the body limit and the content-length comparison see a wrong total")
-	// carried-over header bytes
-	hpm := p.pmFor(hd)
-	ast.Inspect(hd.Body, func(n ast.Node) bool {
-		as, ok := n.(*ast.AssignStmt)
-		if !ok || len(as.Lhs) != 1 || len(as.Rhs) != 1 || !p.isFieldSel(as.Lhs[0], "Stream", "previousHeaderBytes") {
-			return true
-		}
-		ap, ok := as.Rhs[0].(*ast.CallExpr)
-		if !ok || p.calleeOf(ap) != "builtin.append" {
-			return true
-		}
-		bounded := false
-		for _, g := range p.enclosingGuards(hpm, as) {
-			if g.Val || g.If == nil || !isRejectingBody(p, g.If.Body) {
-				continue
+	// carried-over header bytes: the bound is one function, and every place that
+	// keeps the bytes of a cut field asks it about exactly those bytes and gives
+	// the connection up when it says so
+	ccOK := false
+	if cc := p.decl("(*serverConn).checkCarried"); cc != nil {
+		r.fn("(*serverConn).checkCarried")
+		if len(cc.Body.List) == 2 {
+			if ifs, ok := cc.Body.List[0].(*ast.IfStmt); ok && ifs.Else == nil {
+				okCond, _, _, folded := p.equivOver(ifs.Cond, fdeDomain{[]string{"sc.maxHeaderList", "n"}, [][]int64{{0, 1, 100}, {0, 1, 4, 5, 399, 400, 401, 1000}}}, nil, func(e fdeEnv) int64 {
+					return b2i(e["sc.maxHeaderList"] > 0 && e["n"] > 4*e["sc.maxHeaderList"])
+				})
+				res := firstReturn(ifs.Body)
+				okErr := false
+				if len(res) == 1 {
+					if cl, code, ok := p.errorCall(res[0]); ok && cl == "GoAway" && code == 11 {
+						okErr = true
+					}
+				}
+				last := retResults(cc.Body.List[1])
+				ccOK = okCond && folded && okErr && len(last) == 1 && p.text(last[0]) == "nil"
 			}
-			t := p.text(g.Cond)
-			if strings.Contains(t, "len(") && (strings.Contains(t, "previousHeaderBytes") || strings.Contains(t, "len(pb)") || strings.Contains(t, "len(b)")) && (strings.Contains(t, "max") || strings.Contains(t, "Max")) {
-				bounded = true
-			}
 		}
-		r.check(bounded, "carried header bytes bounded", p.pos(as.Pos()), "carry-over size compared with a limit",
-			"undecoded header bytes are accumulated in Stream.previousHeaderBytes with no comparison of their size against any limit: a field whose declared length never completes (string length 2^28, fed in endless CONTINUATION frames) grows the buffer without bound, and MaxHeaderListSize never triggers because it only counts decoded fields")
-		return true
-	})
+	}
+	r.check(ccOK, "carried header bytes bounded", p.pos(hd.Pos()), "checkCarried: limit > 0 && n > 4*limit -> GOAWAY(ENHANCE_YOUR_CALM)", "the bound on the bytes of an unfinished header field is no longer 'a limit is configured and the field is more than four times the header list limit -> connection error': a field that never ends grows the buffer without bound (MaxHeaderListSize only counts decoded fields), or a field that fits the limit is refused")
+	// handleHeaderFrame: the store of the cut field and the question sit together, and the answer is what the function returns
+	{
+		asked := false
+		ast.Inspect(hd.Body, func(n ast.Node) bool {
+			blk, ok := n.(*ast.BlockStmt)
+			if !ok {
+				return true
+			}
+			t := stmtTexts(p, blk.List)
+			si, qi := -1, -1
+			for i, x := range t {
+				if x == "strm.previousHeaderBytes=append(strm.previousHeaderBytes,pb...)" {
+					si = i
+				}
+				if x == "err=sc.checkCarried(len(pb))" {
+					qi = i
+				}
+			}
+			if si >= 0 && qi >= 0 && len(t) == 2 {
+				asked = true
+			}
+			return true
+		})
+		last := retResults(hd.Body.List[len(hd.Body.List)-1])
+		r.check(asked && len(last) == 1 && p.text(last[0]) == "err", "handleHeaderFrame asks the bound about the field it keeps", p.pos(hd.Pos()), "err = checkCarried(len(pb)) next to the store; the loop is left and err returned", "handleHeaderFrame keeps the bytes of a cut field without asking checkCarried about them (or drops its answer)")
+	}
+	for _, site := range []struct{ fn, want, desc string }{
+		{"(*serverConn).rejectBlock", "iferr:=sc.checkCarried(len(carry));err!=nil{returnerr}", "if err := checkCarried(len(carry)); err != nil { return err }"},
+		{"(*serverConn).discardFrame", "iferr==nil{err=sc.checkCarried(len(carry))}", "if err == nil { err = checkCarried(len(carry)) } before the error return"},
+	} {
+		fdn := p.decl(site.fn)
+		okSite := false
+		if fdn != nil {
+			ast.Inspect(fdn.Body, func(n ast.Node) bool {
+				if st, ok := n.(ast.Stmt); ok && squash(p.text(st)) == site.want {
+					okSite = true
+				}
+				return true
+			})
+		}
+		r.check(okSite, site.fn+" asks the bound about the field it keeps", p.pos(hd.Pos()), site.desc, site.fn+" keeps the bytes of a cut field without asking checkCarried about them and leaving on its answer")
+	}
 }
 
 func ruleClosedRing(p *Prog, r *Out) {
